@@ -518,6 +518,10 @@ class Interp:
                 lst.sort(key=lambda a: (self.rank(a[1]), a[2]))
                 return None
             raise Unmodelled('std::sort at line %s' % e.get('ln'))
+        if callee(e) in ('std::min', 'std::max') and len(args) == 2:
+            a0, a1 = self.val(args[0]), self.val(args[1])
+            if isinstance(a0, int) and isinstance(a1, int):
+                return min(a0, a1) if callee(e) == 'std::min' else max(a0, a1)
         if m == 'move' or callee(e) == 'std::move':
             return self.val(args[0])
         if m in ('getTerm_true', 'getTerm_false'):
